@@ -7,7 +7,13 @@ def native(tier, shards=16, profile="monitor", timeout=3600, name=None):
             "shards": shards, "wall_timeout_s": timeout}
 
 
-def miri(shards=16, timeout=3600, flags="", name="miri"):
+# Miri gates on out-of-bounds, dangling and uninitialised accesses only: the buffer
+# crate deliberately holds two unique references (DESIGN.md C19), which the
+# aliasing models reject although no property speaks about it.
+MIRI_DEFAULT_FLAGS = "-Zmiri-disable-stacked-borrows"
+
+
+def miri(shards=16, timeout=3600, flags=MIRI_DEFAULT_FLAGS, name="miri"):
     return {"name": name, "kind": "miri", "profile": "miri", "tier": "miri", "shards": shards,
             "wall_timeout_s": timeout, "miriflags": flags}
 
@@ -91,3 +97,14 @@ check("C10", "exploration",
       [native("quick")],
       [native("thorough"), miri(shards=4)],
       minima={"snapshots[uuid-types=>=2]": 1000, "snapshots[uuid-types=1]": 500, "snapshots[uuid-types=0]": 500, "max_items": 1000})
+
+check("C15", "exploration",
+      [native("quick")],
+      [native("thorough"), miri(shards=4)],
+      minima={"low_recordings": 1500, "high_recordings": 800, "tick_marker_inline": 1000, "tick_marker_absolute": 1000,
+              "tick_gap_31": 100, "tick_gap_32": 100, "tick_keyframe": 1000, "size_enc_5bit": 1000, "size_enc_1byte": 1000,
+              "size_enc_2bytes": 1000, "compressed_len_29": 100, "compressed_len_30": 100, "compressed_len_255": 100,
+              "compressed_len_256": 100, "payload_empty": 500, "message_len_not_multiple_of_4": 1000,
+              "recordings_over_more_than_one_interval": 200, "objects_appeared": 1000, "objects_changed": 1000,
+              "objects_vanished": 1000, "dup_key_probe": 50, "tick_probe_refused:same-tick": 50,
+              "tick_probe_refused:smaller-tick": 50})
